@@ -2,6 +2,7 @@
   C04 — Story faults are reported as errors; the runtime never panics; integer
   arithmetic wraps to 32 bits; after an error a reset story is a fresh story.
 -/
+import Lean.Elab.Tactic
 import Proofs.C13
 import Proofs.C17
 
@@ -314,8 +315,10 @@ theorem coerceAll_length (dest : Nat) (ps : List Obj) (vs : List Val)
       · cases h
     | _ => cases h
 
-theorem binaryList_no_panic (defs : ListDefs) (op : Op) (v0 v1 : Val) (s : String) :
-    Native.binaryList defs op (.val v0) (.val v1) ≠ .panic s := by
+/-- The list branch never panics, whatever the operands are: an operand that is no value
+    (glue, a tag, …) is a story error since the hardening (`RTObject of type Value expected: …`). -/
+theorem binaryList_no_panic (defs : ListDefs) (op : Op) (p0 p1 : Obj) (s : String) :
+    Native.binaryList defs op p0 p1 ≠ .panic s := by
   unfold Native.binaryList
   split
   · intro h; cases h
@@ -341,14 +344,14 @@ theorem binaryList_no_panic (defs : ListDefs) (op : Op) (v0 v1 : Val) (s : Strin
     · split
       · exact binary_no_panic _ _ _ s
       · intro h; cases h
-  · rename_i hne _ _
-    exact absurd rfl (hne v0 v1 rfl)
+  · intro h; cases h
+  · intro h; cases h
 
-/-- **The runtime never panics in a native call**: on values (or void) every
-    fault — wrong types, wrong arity, void operand, undefined division — is an
-    `err`.  The three `panic` sites of `Ink/Native.lean` are unreachable. -/
-theorem native_call_no_panic (defs : ListDefs) (op : Op) (ps : List Obj)
-    (hps : ∀ p ∈ ps, (∃ v, p = .val v) ∨ p = .void) : ∀ s, Native.call defs op ps ≠ .panic s := by
+/-- **The runtime never panics in a native call**, whatever the operands are: every
+    fault — wrong types, wrong arity, void operand, undefined division, an operand that is
+    no value — is an `err`.  The `panic` sites left in `Ink/Native.lean` are unreachable. -/
+theorem native_call_never_panics (defs : ListDefs) (op : Op) (ps : List Obj) :
+    ∀ s, Native.call defs op ps ≠ .panic s := by
   intro s
   have hco : ∀ s', Native.coerceAll (Native.destType ps) ps ≠ .panic s' :=
     coerceAll_no_panic _ ps (fun v hv => destType_ge ps v hv)
@@ -357,15 +360,7 @@ theorem native_call_no_panic (defs : ListDefs) (op : Op) (ps : List Obj)
   · intro h; cases h
   · split
     · intro h; cases h
-    · rename_i hvoid
-      have hval : ∀ p ∈ ps, ∃ v, p = .val v := by
-        intro p hp
-        rcases hps p hp with hv | hv
-        · exact hv
-        · subst hv
-          exfalso; apply hvoid
-          exact List.any_eq_true.mpr ⟨_, hp, rfl⟩
-      rcases ps with _ | ⟨p0, _ | ⟨p1, _ | ⟨p2, rest⟩⟩⟩
+    · rcases ps with _ | ⟨p0, _ | ⟨p1, _ | ⟨p2, rest⟩⟩⟩
       · intro h; cases h
       · simp only
         split
@@ -379,14 +374,12 @@ theorem native_call_no_panic (defs : ListDefs) (op : Op) (ps : List Obj)
           | [a], _, hne => exact absurd rfl (hne a)
         · intro h; cases h
         · rename_i s' heq; exact absurd heq (hco s')
-      · obtain ⟨v0, rfl⟩ := hval p0 (by simp)
-        obtain ⟨v1, rfl⟩ := hval p1 (by simp)
-        simp only
+      · simp only
         split
         · split
           · intro h; cases h
           · intro h; cases h
-          · rename_i s' heq; exact absurd heq (binaryList_no_panic defs op v0 v1 s')
+          · rename_i s' heq; exact absurd heq (binaryList_no_panic defs op p0 p1 s')
         · split
           · split
             · intro h; cases h
@@ -399,6 +392,12 @@ theorem native_call_no_panic (defs : ListDefs) (op : Op) (ps : List Obj)
           · intro h; cases h
           · rename_i s' heq; exact absurd heq (hco s')
       · intro h; cases h
+
+/-- The statement as it was before the hardening (operands restricted to values or void):
+    a special case of `native_call_never_panics`. -/
+theorem native_call_no_panic (defs : ListDefs) (op : Op) (ps : List Obj)
+    (_hps : ∀ p ∈ ps, (∃ v, p = .val v) ∨ p = .void) : ∀ s, Native.call defs op ps ≠ .panic s :=
+  native_call_never_panics defs op ps
 
 /-- Packaged: a native call on values ends in `ok` or `err`. -/
 theorem native_call_ok_or_err (defs : ListDefs) (op : Op) (ps : List Obj)
@@ -444,9 +443,14 @@ example : ∀ s, Native.call [] .subtract [.val (.str "a"), .val (.str "b")] ≠
     intro p hp
     simp only [List.mem_cons, List.mem_nil_iff, or_false] at hp
     rcases hp with rfl | rfl <;> exact Or.inl ⟨_, rfl⟩)
--- and it is needed: a non-value operand next to a list reaches the Rust downcast `unwrap`
+-- the hypothesis is not needed any more: a non-value operand next to a list used to reach the
+-- Rust downcast `unwrap`; since the hardening it is a story error naming the operand
 example : Native.call [] .add [.val (.list InkList.empty), .glue]
-    = .panic "native_function_call.rs:binary_list_downcast" := rfl
+    = .err "InvalidStoryState" "RTObject of type Value expected: Glue" := rfl
+example : Native.call [] .add [.tag "t", .val (.list InkList.empty)]
+    = .err "InvalidStoryState" "RTObject of type Value expected: # t" := rfl
+example : Native.call [] .add [.glue, .val (.int 1)]
+    = .err "InvalidStoryState" "RTObject of type Value expected: Glue" := rfl
 
 /-! ### 6. The evaluation stack never panics on underflow -/
 
@@ -689,6 +693,798 @@ example : (exFaulted.resetState 7).1 = .ok () ∧ (exFaulted.resetState 7).2.sta
   reset_after_error_no_globals exFaulted 7 exFaulted_quiescent exFaulted_hasError rfl
 example : exFaulted.resetState 7 = (C17.blankWith exFaulted 7).resetGlobals :=
   (reset_after_error_fresh exFaulted 7 exFaulted_quiescent exFaulted_hasError).1
+
+
+/-! ### 10. The complete list of panic sites of a step
+
+  Since the hardening of the runtime most `crash` / `unwrap` sites of the step function are
+  story errors.  This section lists the site tags that are left and proves the list complete:
+  a small logic `NP S m` for the step monad `M` ("if `m` ends in `panic site`, then
+  `site ∈ S`") with a head-symbol driven tactic `np_step` (the scheme of `h_step` in
+  `Proofs/C10Frame.lean`) is pushed through every `do` block of `Ink/Step.lean` up to
+  `step` and `tryFollowDefaultInvisibleChoice`; `step_panic_sites` and
+  `continueSingleStep_panic_sites` state the result. -/
+
+open M
+
+/-- The site tags with which one interpreter step (`Ink.step`) can still end in `panic`.
+    Every other `crash` / `unwrap` / `.panic` of `Ink/Step.lean`, `Ink/State.lean` and
+    `Ink/Native.lean` is unreachable from a step.  Each tag stands for an invariant of the
+    Rust that is trusted, not checked (the "(b)" rows of the hardening table):
+
+    * `progress.rs:increment_content_pointer`, `story/mod.rs:shuffle_container`,
+      `control_logic.rs:visit_index_container` — the current pointer is not null where
+      `step()` uses its container;
+    * `object.rs:resolve_path` — an object of the story tree that is not a container has a
+      parent (the root is a container);
+    * `callstack.rs:push`, `callstack.rs:fork_thread` — a call stack has a thread and every
+      thread an element;
+    * `divert.rs:get_target_path_string` — a divert without a variable target has a target path;
+    * `object.rs:get_path` — a model artefact: the path of an address of the content tree
+      that names no node (a pointer of the state into another tree; the Rust holds an `Rc`
+      and `Object::get_path` is total).
+
+    The other "(b)" sites of the step function are proved unreachable below, from the
+    conditions under which they are reached: `control_logic.rs:pop_names_unwrap` (the name
+    table of the pop types), `control_logic.rs:list_random_index` (`next_random % len`
+    indexes the `len` ordered items), `story/mod.rs:shuffle_index` (with `1 ≤ n ≤ 10000` and
+    `0 ≤ i < n` the list of unpicked indices is not empty in round `i`), and the model
+    artefacts `progress.rs:visit_container` and `tree` (the node of an address that was just
+    found to be a container). -/
+def stepSites : List String :=
+  [ "object.rs:get_path",
+    "progress.rs:increment_content_pointer", "story/mod.rs:shuffle_container",
+    "control_logic.rs:visit_index_container",
+    "object.rs:resolve_path",
+    "callstack.rs:push", "callstack.rs:fork_thread",
+    "divert.rs:get_target_path_string" ]
+
+/-- The sites of `continue_single_step`: those of the step, and the thread of the default
+    invisible choice that is followed after it (`choices.rs:thread_at_generation`: a choice
+    of the current flow knows its thread). -/
+def continueSites : List String := stepSites ++ ["choices.rs:thread_at_generation"]
+
+/-- `m` can only end in `panic` with one of the site tags `S`. -/
+def NP (S : List String) {α : Type} (m : M α) : Prop :=
+  ∀ (st : St) (site : String) (st' : St), m st = (.panic site, st') → site ∈ S
+
+/-! ### core level: what the lifted functions can panic with -/
+
+theorem isTruthyObj_no_panic (o : Obj) (s : String) : isTruthyObj o ≠ .panic s := by
+  unfold isTruthyObj
+  split
+  · intro h; cases h
+  · exact isTruthy_no_panic _ s
+  · intro h; cases h
+
+theorem originNames_ne_none (l : InkList) : l.originNames ≠ none := by
+  unfold InkList.originNames
+  split <;> (intro h; cases h)
+
+theorem pushEval_no_panic (defs : ListDefs) (s : Core) (o : Obj) (site : String) :
+    s.pushEval defs o ≠ .panic site := by
+  unfold Core.pushEval
+  split
+  · split
+    · rename_i h; exact absurd h (originNames_ne_none _)
+    · intro h; cases h
+  · intro h; cases h
+
+theorem pointerAtPath_no_panic (root : Obj) (p : Path) (site : String) : pointerAtPath root p ≠ .panic site := by
+  unfold pointerAtPath
+  split
+  · intro h; cases h
+  · rename_i last _
+    cases last <;> simp only <;> split <;> (intro h; cases h)
+
+theorem visitCountFor_panic (root : Obj) (s : Core) (a : Addr) (site : String)
+    (h : s.visitCountFor root a = .panic site) : site ∈ stepSites := by
+  unfold Core.visitCountFor at h
+  split at h
+  · split at h <;> cases h
+  · cases h; simp [stepSites]
+
+theorem incrementVisitCount_panic (root : Obj) (s : Core) (a : Addr) (site : String)
+    (h : s.incrementVisitCount root a = .panic site) : site ∈ stepSites := by
+  unfold Core.incrementVisitCount at h
+  split at h
+  · cases h
+  · cases h; simp [stepSites]
+
+theorem recordTurnIndexVisit_panic (root : Obj) (s : Core) (a : Addr) (site : String)
+    (h : s.recordTurnIndexVisit root a = .panic site) : site ∈ stepSites := by
+  unfold Core.recordTurnIndexVisit at h
+  split at h
+  · cases h
+  · cases h; simp [stepSites]
+
+theorem pop_no_panic (cs : CallStack) (t : Option PushPop) (site : String) : cs.pop t ≠ .panic site := by
+  unfold CallStack.pop
+  split <;> (intro h; cases h)
+
+theorem popThread_no_panic (cs : CallStack) (site : String) : cs.popThread ≠ .panic site := by
+  unfold CallStack.popThread
+  split <;> (intro h; cases h)
+
+theorem popCallstack_no_panic (s : Core) (t : Option PushPop) (site : String) :
+    s.popCallstack t ≠ .panic site := by
+  unfold Core.popCallstack
+  simp only
+  split
+  · intro h; cases h
+  · intro h; cases h
+  · rename_i heq; exact absurd heq (pop_no_panic _ _ _)
+
+/-- A context index that names no element of the call stack is a story error since the hardening. -/
+theorem setTemp_no_panic (cs : CallStack) (name : String) (v : Val) (d : Bool) (ctx : Int) (site : String) :
+    cs.setTemp name v d ctx ≠ .panic site := by
+  intro h
+  unfold CallStack.setTemp at h
+  simp only at h
+  repeat' split at h
+  all_goals cases h
+
+/-- `VariablesState::assign` never panics (reading through a bad variable pointer finds nothing,
+    assigning through it is a story error). -/
+theorem assign_no_panic (defs : ListDefs) (s : Core) (name : String) (isNew isGlobal : Bool) (v : Val)
+    (site : String) : s.assign defs name isNew isGlobal v ≠ .panic site := by
+  unfold Core.assign
+  split
+  · simp only
+    split
+    · intro h; cases h
+    · split
+      · intro h; cases h
+      · intro h; cases h
+      · rename_i heq; exact absurd heq (setTemp_no_panic _ _ _ _ _ _)
+  · split
+    split
+    · intro h; cases h
+    · split
+      · intro h; cases h
+      · intro h; cases h
+      · rename_i heq; exact absurd heq (setTemp_no_panic _ _ _ _ _ _)
+
+theorem targetPointerOf_panic (root : Obj) (a : Addr) (t : Path) (site : String)
+    (h : targetPointerOf root a t = .panic site) : site ∈ stepSites := by
+  unfold targetPointerOf at h
+  split at h
+  · cases h
+  · split at h
+    · cases h; simp [stepSites]
+    · split at h
+      · cases h
+      · split at h <;> cases h
+
+theorem divertTargetPath_panic (root : Obj) (a : Addr) (t : Path) (site : String)
+    (h : divertTargetPath root a t = .panic site) : site ∈ stepSites := by
+  unfold divertTargetPath at h
+  split at h
+  · split at h
+    · split at h
+      · split at h
+        · cases h
+        · cases h; simp [stepSites]
+      · cases h
+    · cases h
+    · rename_i s heq
+      cases h
+      exact targetPointerOf_panic _ _ _ _ heq
+  · cases h
+
+/-- `path_by_appending_path` is total since the hardening, and so is `compact_path_string`. -/
+theorem compact_isSome (own other : Path) : ∃ t, Path.compact own other = some t := by
+  unfold Path.compact Path.appendPath
+  split
+  · exact ⟨_, rfl⟩
+  · exact ⟨_, rfl⟩
+
+/-! ### the logic -/
+
+theorem NP_pure {S : List String} {α : Type} {a : α} : NP S (pure a : M α) := by
+  intro st site st' h; cases h
+
+theorem NP_bind {S : List String} {α β : Type} {x : M α} {f : α → M β} (hx : NP S x) (hf : ∀ a, NP S (f a)) : NP S (x >>= f) := by
+  intro st site st' h
+  change (M.bind' x f) st = _ at h
+  unfold M.bind' at h
+  split at h
+  · rename_i a st1 heq
+    exact hf a st1 site st' h
+  · cases h
+  · rename_i p st1 heq
+    simp only [Prod.mk.injEq, Out.panic.injEq] at h
+    obtain ⟨rfl, rfl⟩ := h
+    exact hx st _ _ heq
+
+theorem NP_get {S : List String} : NP S M.get := by intro st site st' h; cases h
+theorem NP_getSt {S : List String} : NP S M.getSt := by intro st site st' h; cases h
+theorem NP_set {S : List String} {s : Core} : NP S (M.set s) := by intro st site st' h; cases h
+theorem NP_setSt {S : List String} {s : St} : NP S (M.setSt s) := by intro st site st' h; cases h
+theorem NP_modify {S : List String} {f : Core → Core} : NP S (M.modify f) := by intro st site st' h; cases h
+theorem NP_fail {S : List String} {α : Type} {k m : String} : NP S (M.fail k m : M α) := by intro st site st' h; cases h
+theorem NP_invalid {S : List String} {α : Type} {m : String} : NP S (M.invalid m : M α) := NP_fail
+
+theorem NP_crash {S : List String} {α : Type} {p : String} (hp : p ∈ S) : NP S (M.crash p : M α) := by
+  intro st site st' h
+  simp only [M.crash, Prod.mk.injEq, Out.panic.injEq] at h
+  obtain ⟨rfl, _⟩ := h
+  exact hp
+
+theorem NP_unwrap {S : List String} {α : Type} {site : String} {o : Option α} (hp : site ∈ S) :
+    NP S (M.unwrap site o) := by
+  cases o with
+  | none => exact NP_crash hp
+  | some a => exact NP_pure
+
+theorem NP_unwrap_some {S : List String} {α : Type} {site : String} {o : Option α} (h : ∃ a, o = some a) :
+    NP S (M.unwrap site o) := by
+  obtain ⟨a, rfl⟩ := h
+  exact NP_pure
+
+theorem NP_unwrap_compact {S : List String} {site : String} {own other : Path} : NP S (M.unwrap site (Path.compact own other)) := by
+  obtain ⟨t, ht⟩ := compact_isSome own other
+  rw [ht]; exact NP_pure
+
+theorem NP_lift {S : List String} {α : Type} {o : Out α} (h : ∀ site, o = .panic site → site ∈ S) : NP S (M.lift o) := by
+  intro st site st' hh
+  simp only [M.lift, Prod.mk.injEq] at hh
+  exact h site hh.1
+
+theorem NP_liftS {S : List String} {f : Core → Out Core} (h : ∀ s site, f s = .panic site → site ∈ S) :
+    NP S (M.liftS f) := by
+  intro st site st' hh
+  unfold M.liftS at hh
+  split at hh
+  · cases hh
+  · cases hh
+  · rename_i p heq
+    simp only [Prod.mk.injEq, Out.panic.injEq] at hh
+    obtain ⟨rfl, _⟩ := hh
+    exact h _ _ heq
+
+theorem NP_ite {S : List String} {α : Type} {c : Prop} [Decidable c] {x y : M α} (hx : NP S x) (hy : NP S y) :
+    NP S (if c then x else y) := by
+  split <;> assumption
+
+theorem NP_mono {S S' : List String} {α : Type} {m : M α} (hs : ∀ x, x ∈ S → x ∈ S') (h : NP S m) : NP S' m :=
+  fun st site st' hh => hs _ (h st site st' hh)
+
+theorem stepSites_sub_continueSites : ∀ x, x ∈ stepSites → x ∈ continueSites := by
+  intro x hx
+  unfold continueSites
+  exact List.mem_append_left _ hx
+
+theorem NP_of_false {S : List String} {α : Type} {m : M α} (h : False) : NP S m := h.elim
+
+theorem NP_bind_pure {S : List String} {α β : Type} {a : α} {f : α → M β} (hf : NP S (f a)) : NP S ((pure a : M α) >>= f) := by
+  intro st site st' h
+  exact hf st site st' h
+
+theorem NP_bind_fail {S : List String} {α β : Type} {k m : String} {f : α → M β} : NP S ((M.fail k m : M α) >>= f) := by
+  intro st site st' h; cases h
+
+theorem NP_bind_invalid {S : List String} {α β : Type} {m : String} {f : α → M β} : NP S ((M.invalid m : M α) >>= f) := NP_bind_fail
+
+theorem NP_bind_crash {S : List String} {α β : Type} {p : String} {f : α → M β} (hp : p ∈ S) :
+    NP S ((M.crash p : M α) >>= f) := by
+  intro st site st' h
+  change (M.bind' (M.crash p) f) st = _ at h
+  simp only [M.bind', M.crash, Prod.mk.injEq, Out.panic.injEq] at h
+  obtain ⟨rfl, _⟩ := h
+  exact hp
+
+theorem NP_popEvalM {S : List String} : NP S popEvalM := by
+  intro st site st' h
+  unfold Ink.popEvalM at h
+  split at h
+  · cases h
+  · cases h
+  · rename_i p heq; exact absurd heq (popEval_no_panic _ _)
+
+theorem NP_pushEvalM {S : List String} {env : Env} {o : Obj} : NP S (pushEvalM env o) :=
+  NP_liftS (fun _ _ h => absurd h (pushEval_no_panic _ _ _ _))
+
+theorem NP_addErrorM {S : List String} {root : Obj} {m : String} {w : Bool} : NP S (addErrorM root m w) := by
+  intro st site st' h
+  unfold Ink.addErrorM at h
+  split at h <;> cases h
+
+theorem NP_pointerAtPathM {S : List String} {env : Env} {p : Path} : NP S (pointerAtPathM env p) :=
+  NP_lift (fun _ h => absurd h (pointerAtPath_no_panic _ _ _))
+
+theorem NP_divertTargetPointer {env : Env} {a : Addr} {t : Path} : NP stepSites (divertTargetPointer env a t) :=
+  NP_lift (fun _ h => targetPointerOf_panic _ _ _ _ h)
+
+/-! #### the sites that are unreachable for local reasons -/
+
+theorem filter_ne_length (l : List Int) (c : Int) (hn : l.Nodup) (hc : c ∈ l) :
+    (l.filter (fun x => x != c)).length + 1 = l.length := by
+  induction l with
+  | nil => cases hc
+  | cons a rest ih =>
+    rw [List.nodup_cons] at hn
+    by_cases hac : a = c
+    · subst hac
+      have : rest.filter (fun x => x != a) = rest := by
+        apply List.filter_eq_self.mpr
+        intro x hx
+        have : x ≠ a := fun e => hn.1 (e ▸ hx)
+        simpa using this
+      simp [this]
+    · have hc' : c ∈ rest := by
+        rcases List.mem_cons.mp hc with h | h
+        · exact absurd h.symm hac
+        · exact h
+      have := ih hn.2 hc'
+      simp [hac]
+      omega
+
+theorem pick_ne_none (it seed : Int) :
+    ∀ (fuel i : Nat) (unpicked : List Int), unpicked.Nodup → (i : Int) ≤ it →
+      it < (i : Int) + unpicked.length → unpicked.length < fuel →
+      nextSequenceShuffleIndex.pick it seed fuel i unpicked ≠ none := by
+  intro fuel
+  induction fuel with
+  | zero => intro i u _ _ _ h; omega
+  | succ fuel ih =>
+    intro i u hnd hle hlt hfuel
+    unfold nextSequenceShuffleIndex.pick
+    have hlen : 0 < u.length := by omega
+    have hne : u.isEmpty = false := by
+      cases u with
+      | nil => simp at hlen
+      | cons _ _ => rfl
+    simp only [hne, Bool.false_eq_true, if_false]
+    have hpos : (0 : Int) < (u.length : Int) := by omega
+    have h1 : 0 ≤ wrapI32 (Rng.nthWord seed i) % (u.length : Int) := Int.emod_nonneg _ (by omega)
+    have h2 : wrapI32 (Rng.nthWord seed i) % (u.length : Int) < (u.length : Int) := Int.emod_lt_of_pos _ hpos
+    have hidx : (wrapI32 (Rng.nthWord seed i) % (u.length : Int)).toNat < u.length := by omega
+    rw [List.getElem?_eq_getElem hidx]
+    simp only
+    split
+    · intro h; cases h
+    · rename_i hne'
+      have hilt : (i : Int) < it := by
+        have : ¬ ((i : Int) = it) := by simpa using hne'
+        omega
+      have hmem : u[(wrapI32 (Rng.nthWord seed i) % (u.length : Int)).toNat] ∈ u := List.getElem_mem _
+      have hfl := filter_ne_length u _ hnd hmem
+      apply ih
+      · exact hnd.filter _
+      · push_cast; omega
+      · push_cast; omega
+      · omega
+
+theorem shuffle_pick_ne_none (n sc seed : Int)
+    (hn : ¬ (decide (n ≤ 0) || decide (n > 10000)) = true) (h0 : ¬ sc.tmod n < 0) :
+    nextSequenceShuffleIndex.pick (sc.tmod n) seed (n.toNat + 1) 0 (List.map Int.ofNat (List.range n.toNat)) ≠ none := by
+  have hn' : 0 < n := by
+    simp only [Bool.or_eq_true, decide_eq_true_eq, not_or, Int.not_le] at hn
+    exact hn.1
+  apply pick_ne_none
+  · rw [List.Nodup, List.pairwise_map]
+    exact (List.nodup_range (n := n.toNat)).imp (fun h e => h (Int.ofNat.inj e))
+  · simp only [Int.natCast_zero] ; omega
+  · have := Int.tmod_lt_of_pos sc hn'
+    simp only [List.length_map, List.length_range, Int.natCast_zero]
+    omega
+  · simp
+
+theorem insertSortedItem_length (x : ListItem × Int) (l : List (ListItem × Int)) :
+    (InkList.insertSortedItem x l).length = l.length + 1 := by
+  induction l with
+  | nil => rfl
+  | cons y ys ih =>
+    unfold InkList.insertSortedItem
+    split
+    · simp
+    · simp [ih]
+
+theorem ordered_length (l : InkList) : l.ordered.length = l.items.length := by
+  unfold InkList.ordered
+  have : ∀ (xs acc : List (ListItem × Int)),
+      (xs.foldl (fun acc x => InkList.insertSortedItem x acc) acc).length = acc.length + xs.length := by
+    intro xs
+    induction xs with
+    | nil => intro acc; simp
+    | cons x xs ih => intro acc; simp only [List.foldl_cons, ih, insertSortedItem_length, List.length_cons]; omega
+  simpa using this l.items []
+
+/-- `LIST_RANDOM`: `next_random % len` indexes the `len` ordered items of a non-empty list. -/
+theorem listRandom_index_ne_none (l : InkList) (n : Nat) (h : ¬ l.items.isEmpty = true) :
+    l.ordered.reverse[n % l.items.length]? ≠ none := by
+  have hpos : 0 < l.items.length := by
+    cases hl : l.items with
+    | nil => simp [hl] at h
+    | cons _ _ => simp
+  have hlt : n % l.items.length < l.ordered.reverse.length := by
+    rw [List.length_reverse, ordered_length]; exact Nat.mod_lt _ hpos
+  rw [List.getElem?_eq_getElem hlt]
+  intro hh; cases hh
+
+theorem isContainerAt_nodeAt {root : Obj} {a : Addr} (h : isContainerAt root a = true) :
+    ∃ o, nodeAt root a = some o := by
+  unfold isContainerAt at h
+  split at h
+  · exact ⟨_, by assumption⟩
+  · cases h
+
+/-- the container found by `TURNS_SINCE` / `READ_COUNT` is a node of the tree -/
+theorem nodeAt_of_guard {root : Obj} {a ca : Addr} {b : Bool}
+    (h : (if (b && isContainerAt root a) = true then some a else none) = some ca) :
+    ∃ o, nodeAt root ca = some o := by
+  split at h
+  · rename_i hc
+    cases h
+    simp only [Bool.and_eq_true] at hc
+    exact isContainerAt_nodeAt hc.2
+  · cases h
+
+theorem canPop_currentElement {cs : CallStack} (h : cs.canPop = true) : ∃ e, cs.currentElement = some e := by
+  unfold CallStack.canPop CallStack.elements at h
+  unfold CallStack.currentElement
+  split at h
+  · rename_i t ht
+    simp only [decide_eq_true_eq] at h
+    cases hl : t.callstack.getLast? with
+    | some e => exact ⟨e, rfl⟩
+    | none =>
+      rw [List.getLast?_eq_none_iff] at hl
+      rw [hl] at h; simp at h
+  · simp at h
+
+/-- the local `nameOf` of the pop commands -/
+def popName : PushPop → Option String
+  | .function => some "function return statement (~ return)"
+  | .tunnel => some "tunnel onwards statement (->->)"
+  | .functionEvaluationFromGame => none
+
+/-- The name table of the pop types (`control_logic.rs`, `names.get(..).unwrap()`): the popped
+    type is `Function` or `Tunnel`, and when the call stack can be popped and the story did not
+    just leave a function evaluation from the game, the current element is one too. -/
+theorem popNames_absurd (s : Core) (pt : PushPop) (hpt : pt ≠ .functionEvaluationFromGame)
+    (hex : ¬ s.tryExitFunctionEvaluationFromGame.snd = true)
+    (hx : ∀ (f e : String), popName pt = some f →
+      (if (!s.callstack.canPop) = true then some "end of flow (-> END or choice)"
+        else
+          match Option.map (fun x => x.kind) s.callstack.currentElement with
+          | some k => popName k
+          | none => none) = some e → False) : False := by
+  have h1 : ∃ f, popName pt = some f := by
+    cases pt with
+    | function => exact ⟨_, rfl⟩
+    | tunnel => exact ⟨_, rfl⟩
+    | functionEvaluationFromGame => exact absurd rfl hpt
+  obtain ⟨f, hf⟩ := h1
+  cases hcp : s.callstack.canPop with
+  | false => exact hx f "end of flow (-> END or choice)" hf (by simp [hcp])
+  | true =>
+    obtain ⟨el, hel⟩ := canPop_currentElement hcp
+    have hk : el.kind ≠ .functionEvaluationFromGame := by
+      intro hk
+      apply hex
+      unfold Core.tryExitFunctionEvaluationFromGame CallStack.elementIsEvaluateFromGame
+      simp [hel, hk]
+    cases hkind : el.kind with
+    | function => exact hx f "function return statement (~ return)" hf (by simp [hcp, hel, hkind, popName])
+    | tunnel => exact hx f "tunnel onwards statement (->->)" hf (by simp [hcp, hel, hkind, popName])
+    | functionEvaluationFromGame => exact absurd hkind hk
+
+theorem popThreadLift_no_panic (s : Core) (site : String) :
+    (match s.callstack.popThread with
+      | .ok cs => Out.ok (s.setCallstack cs)
+      | .err k m => .err k m
+      | .panic p => .panic p) ≠ .panic site := by
+  split
+  · intro h; cases h
+  · intro h; cases h
+  · rename_i heq; exact absurd heq (popThread_no_panic _ _)
+
+/-- side conditions of `lift` / `liftS`: the lifted function panics with a residual site only -/
+macro "np_side" : tactic => `(tactic| first
+  | exact absurd (by assumption) (isTruthyObj_no_panic _ _)
+  | exact absurd (by assumption) (pushEval_no_panic _ _ _ _)
+  | exact absurd (by assumption) (assign_no_panic _ _ _ _ _ _ _)
+  | exact absurd (by assumption) (popCallstack_no_panic _ _ _)
+  | exact absurd (by assumption) (pointerAtPath_no_panic _ _ _)
+  | exact visitCountFor_panic _ _ _ _ (by assumption)
+  | exact incrementVisitCount_panic _ _ _ _ (by assumption)
+  | exact recordTurnIndexVisit_panic _ _ _ _ (by assumption)
+  | exact divertTargetPath_panic _ _ _ _ (by assumption)
+  | exact targetPointerOf_panic _ _ _ _ (by assumption)
+  | exact absurd (by assumption) (popThreadLift_no_panic _ _)
+  | exact absurd (by assumption) (native_call_never_panics _ _ _ _))
+
+/-- the conditions under which a locally unreachable site is reached contradict each other
+    (closes a goal `False`) -/
+macro "np_absurd" : tactic => `(tactic| first
+  | (apply shuffle_pick_ne_none <;> assumption)
+  | (apply listRandom_index_ne_none <;> assumption)
+  | (apply popNames_absurd _ PushPop.function (by decide) <;> assumption)
+  | (apply popNames_absurd _ PushPop.tunnel (by decide) <;> assumption)
+  | (simp at *; done))
+
+/-- "this address names a node of the tree" -/
+macro "np_node" : tactic => `(tactic| first
+  | exact ⟨_, by assumption⟩
+  | exact isContainerAt_nodeAt (by assumption)
+  | exact nodeAt_of_guard (by assumption))
+
+/-- membership of a literal site tag in the residual list -/
+macro "np_mem" : tactic => `(tactic| first | decide | (simp [stepSites]; done))
+
+open Lean Elab Tactic Meta in
+/-- One decomposition step of a goal `NP m`, chosen by the head symbol of `m`. -/
+elab "np_step" : tactic => withMainContext do
+  let g ← getMainGoal
+  let tgt := (← instantiateMVars (← g.getType)).consumeMData
+  let args := tgt.getAppArgs
+  unless tgt.getAppFn.isConstOf ``Ink.C04.NP && args.size == 3 do
+    throwError "np_step: not an NP goal"
+  let m0 := args[2]!
+  let m := m0.consumeMData.headBeta
+  if m.isLet then
+    let m' := (m.letBody!.instantiate1 m.letValue!).headBeta
+    let g' ← g.change (mkAppN tgt.getAppFn (args.set! 2 m'))
+    replaceMainGoal [g']
+    return
+  if m != m0 then
+    let g' ← g.change (mkAppN tgt.getAppFn (args.set! 2 m))
+    replaceMainGoal [g']
+    return
+  let run (t : TSyntax `tactic) : TacticM Unit := evalTactic t
+  let headName (e : Expr) : Option Name := e.consumeMData.headBeta.getAppFn.constName?
+  let lemmaFor (c : Name) : Name := `Ink.C04 ++ Name.mkSimple ("NP_" ++ c.getString!)
+  match headName m with
+  | some ``Bind.bind =>
+    let x := m.getAppArgs[4]!
+    match headName x with
+    | some ``Pure.pure => run (← `(tactic| refine NP_bind_pure ?_))
+    | some ``Ink.M.fail => run (← `(tactic| exact NP_bind_fail))
+    | some ``Ink.M.invalid => run (← `(tactic| exact NP_bind_invalid))
+    | some ``Ink.M.crash => run (← `(tactic| first | (refine NP_bind_crash ?_; np_mem) | (refine NP_of_false ?_; np_absurd)))
+    | _ => run (← `(tactic| refine NP_bind ?_ (fun _ => ?_)))
+  | some ``Pure.pure => run (← `(tactic| exact NP_pure))
+  | some ``ite => run (← `(tactic| split))
+  | some ``dite => run (← `(tactic| split))
+  | some ``Ink.M.get => run (← `(tactic| exact NP_get))
+  | some ``Ink.M.getSt => run (← `(tactic| exact NP_getSt))
+  | some ``Ink.M.set => run (← `(tactic| exact NP_set))
+  | some ``Ink.M.setSt => run (← `(tactic| exact NP_setSt))
+  | some ``Ink.M.modify => run (← `(tactic| exact NP_modify))
+  | some ``Ink.M.fail => run (← `(tactic| exact NP_fail))
+  | some ``Ink.M.invalid => run (← `(tactic| exact NP_invalid))
+  | some ``Ink.M.crash => run (← `(tactic| first | (refine NP_crash ?_; np_mem) | (refine NP_of_false ?_; np_absurd)))
+  | some ``Ink.M.unwrap => run (← `(tactic| first
+      | (refine NP_unwrap ?_; np_mem) | exact NP_unwrap_compact | exact NP_unwrap_some (by np_node)))
+  -- Lean's `panic` in the branch of a `.panic` outcome that the matched function never has
+  | some ``panic => run (← `(tactic| exact NP_of_false (popEvalMultiple_no_panic _ _ _ (by assumption))))
+  | some ``Ink.M.lift => run (← `(tactic| (refine NP_lift (fun site hsite => ?_); np_side)))
+  | some ``Ink.M.liftS => run (← `(tactic| (refine NP_liftS (fun s site hsite => ?_); np_side)))
+  | some c =>
+    if (← isMatcher c) then run (← `(tactic| split))
+    else
+      let l := lemmaFor c
+      if (← getEnv).contains l then
+        let id := mkIdent l
+        run (← `(tactic| first | exact $id | exact $id (by np_node) | exact NP_mono stepSites_sub_continueSites $id))
+      else run (← `(tactic| first | assumption | apply_assumption))
+  | none =>
+    if m.getAppFn.isFVar then run (← `(tactic| first | assumption | (apply_assumption)))
+    else throwError "np_step: stuck at {m}"
+
+/-! ### the functions of `Ink/Step.lean` -/
+
+/-- `visit_container` of an address that names a node (the Rust holds the container itself) -/
+theorem NP_visitContainer {env : Env} {a : Addr} {b : Bool} (ha : ∃ o, nodeAt env.root a = some o) :
+    NP stepSites (visitContainer env a b) := by
+  unfold Ink.visitContainer
+  split
+  · rename_i heq
+    obtain ⟨o, ho⟩ := ha
+    rw [ho] at heq; cases heq
+  · repeat' np_step
+
+theorem NP_loop_aux {env : Env} {prev : List Addr} (fuel : Nat) :
+    ∀ (child : Addr) (b : Bool), NP stepSites (visitChangedContainersDueToDivert.loop env prev fuel child b) := by
+  induction fuel with
+  | zero => intro child b; unfold visitChangedContainersDueToDivert.loop; repeat' np_step
+  | succ fuel ih =>
+    intro child b
+    unfold visitChangedContainersDueToDivert.loop
+    repeat' np_step
+
+theorem NP_loop {env : Env} {prev : List Addr} {fuel : Nat} {child : Addr} {b : Bool} :
+    NP stepSites (visitChangedContainersDueToDivert.loop env prev fuel child b) := NP_loop_aux fuel child b
+
+theorem NP_visitChangedContainersDueToDivert {env : Env} : NP stepSites (visitChangedContainersDueToDivert env) := by
+  unfold Ink.visitChangedContainersDueToDivert
+  repeat' np_step
+
+theorem NP_incrementContentPointer {env : Env} : NP stepSites (incrementContentPointer env) := by
+  unfold Ink.incrementContentPointer
+  repeat' np_step
+
+theorem NP_nextSequenceShuffleIndex {env : Env} : NP stepSites (nextSequenceShuffleIndex env) := by
+  unfold Ink.nextSequenceShuffleIndex
+  repeat' np_step
+
+theorem NP_choosePath {env : Env} {p : Path} {b : Bool} : NP stepSites (choosePath env p b) := by
+  unfold Ink.choosePath
+  repeat' np_step
+
+theorem NP_tryFollowDefaultInvisibleChoice {env : Env} : NP continueSites (tryFollowDefaultInvisibleChoice env) := by
+  unfold Ink.tryFollowDefaultInvisibleChoice
+  repeat' np_step
+
+theorem NP_popArgs_aux {f : String} (k : Nat) :
+    ∀ (acc : List Val), NP stepSites (callExternalFunction.popArgs f k acc) := by
+  induction k with
+  | zero => intro acc; unfold callExternalFunction.popArgs; repeat' np_step
+  | succ k ih =>
+    intro acc
+    unfold callExternalFunction.popArgs
+    repeat' np_step
+
+theorem NP_popArgs {f : String} {k : Nat} {acc : List Val} :
+    NP stepSites (callExternalFunction.popArgs f k acc) := NP_popArgs_aux k acc
+
+theorem NP_callExternalFunction {env : Env} {f : String} {k : Nat} : NP stepSites (callExternalFunction env f k) := by
+  unfold Ink.callExternalFunction
+  repeat' np_step
+
+theorem NP_popTags_aux (k : Nat) :
+    ∀ (tags : List String), NP stepSites (popChoiceStringAndTags.popTags k tags) := by
+  induction k with
+  | zero => intro acc; unfold popChoiceStringAndTags.popTags; repeat' np_step
+  | succ k ih =>
+    intro acc
+    unfold popChoiceStringAndTags.popTags
+    repeat' np_step
+
+theorem NP_popTags {k : Nat} {tags : List String} :
+    NP stepSites (popChoiceStringAndTags.popTags k tags) := NP_popTags_aux k tags
+
+theorem NP_popChoiceStringAndTags {tags : List String} : NP stepSites (popChoiceStringAndTags tags) := by
+  unfold Ink.popChoiceStringAndTags
+  repeat' np_step
+
+theorem NP_processChoice {env : Env} {a : Addr} {flags : Int} {p : Path} :
+    NP stepSites (processChoice env a flags p) := by
+  unfold Ink.processChoice
+  repeat' np_step
+
+theorem NP_plfc_divert {env : Env} {a : Addr} {d : DivertData} :
+    NP stepSites (performLogicAndFlowControl env a (.divert d)) := by
+  unfold Ink.performLogicAndFlowControl
+  simp only
+  repeat' np_step
+
+theorem NP_plfc_cmd {env : Env} {a : Addr} {c : Cmd} :
+    NP stepSites (performLogicAndFlowControl env a (.cmd c)) := by
+  unfold Ink.performLogicAndFlowControl
+  simp only
+  repeat' np_step
+
+theorem NP_plfc_native {env : Env} {a : Addr} {op : Op} :
+    NP stepSites (performLogicAndFlowControl env a (.native op)) := by
+  unfold Ink.performLogicAndFlowControl
+  simp only
+  repeat' np_step
+
+theorem NP_performLogicAndFlowControl {env : Env} {a : Addr} {o : Obj} :
+    NP stepSites (performLogicAndFlowControl env a o) := by
+  cases o
+  case divert d => exact NP_plfc_divert
+  case cmd c => exact NP_plfc_cmd
+  case native op => exact NP_plfc_native
+  all_goals (unfold Ink.performLogicAndFlowControl; simp only; repeat' np_step)
+
+theorem NP_nextContent_aux {env : Env} (fuel : Nat) : NP stepSites (nextContent env fuel) := by
+  induction fuel with
+  | zero => unfold Ink.nextContent; repeat' np_step
+  | succ fuel ih =>
+    unfold Ink.nextContent
+    repeat' np_step
+
+theorem NP_nextContent {env : Env} {fuel : Nat} : NP stepSites (nextContent env fuel) := NP_nextContent_aux fuel
+
+theorem NP_descend_aux {env : Env} (fuel : Nat) : ∀ (p : Ptr), NP stepSites (step.descend env fuel p) := by
+  induction fuel with
+  | zero => intro p; unfold step.descend; repeat' np_step
+  | succ fuel ih =>
+    intro p
+    unfold step.descend
+    repeat' np_step
+
+theorem NP_descend {env : Env} {fuel : Nat} {p : Ptr} : NP stepSites (step.descend env fuel p) := NP_descend_aux fuel p
+
+theorem NP_step {env : Env} : NP stepSites (step env) := by
+  unfold Ink.step
+  repeat' np_step
+
+/-- **step_panic_sites.**  The complete set of site tags with which one interpreter step
+    can end in `panic`: every other partial operation of the step function — the evaluation
+    stack, variable look-up and assignment (also through malformed variable pointers), the
+    native functions on arbitrary operands, diverts with empty or unresolvable targets,
+    `du` / `listInt` / `lrnd` / `seq` / `TURNS_SINCE` / `CNT?` on malformed operands, once-only
+    choices, content pointers that address nothing — ends in `ok` or in a story error. -/
+theorem step_panic_sites (env : Env) (st : St) (site : String) (st' : St)
+    (h : step env st = (.panic site, st')) : site ∈ stepSites :=
+  NP_step st site st' h
+
+/-- The list, spelled out. -/
+theorem step_panic_sites' (env : Env) (st : St) (site : String) (st' : St)
+    (h : step env st = (.panic site, st')) :
+    site ∈ [ "object.rs:get_path",
+             "progress.rs:increment_content_pointer", "story/mod.rs:shuffle_container",
+             "control_logic.rs:visit_index_container", "object.rs:resolve_path",
+             "callstack.rs:push", "callstack.rs:fork_thread", "divert.rs:get_target_path_string" ] :=
+  step_panic_sites env st site st' h
+
+theorem runM_panic {α : Type} (st : Story) (m : M α) (site : String) (st1 : Story)
+    (h : st.runM m = (.panic site, st1)) :
+    ∃ st', m { s := st.state.core, externals := st.externals, events := st.events,
+               sawUnsafe := st.sawUnsafe, newWarnings := [] } = (.panic site, st') := by
+  unfold Story.runM at h
+  simp only [Prod.mk.injEq] at h
+  exact ⟨_, Prod.ext h.1 rfl⟩
+
+/-- **continueSingleStep_panic_sites.**  `continue_single_step` (the step, then the default
+    invisible choice if the story cannot go on) ends in `panic` only with one of the sites of
+    the step or with `choices.rs:thread_at_generation`. -/
+theorem continueSingleStep_panic_sites (st : Story) (site : String) (st1 : Story)
+    (h : st.continueSingleStep = (.panic site, st1)) : site ∈ continueSites := by
+  unfold Story.continueSingleStep at h
+  split at h
+  · cases h
+  · rename_i p st1' heq
+    simp only [Prod.mk.injEq, Out.panic.injEq] at h
+    obtain ⟨rfl, _⟩ := h
+    obtain ⟨st', hst'⟩ := runM_panic _ _ _ _ heq
+    exact stepSites_sub_continueSites _ (NP_step _ _ _ hst')
+  · simp only at h
+    split at h
+    · cases h
+    · rename_i p st2' heq2
+      simp only [Prod.mk.injEq, Out.panic.injEq] at h
+      obtain ⟨rfl, _⟩ := h
+      split at heq2
+      · obtain ⟨st', hst'⟩ := runM_panic _ _ _ _ heq2
+        exact NP_tryFollowDefaultInvisibleChoice _ _ _ hst'
+      · cases heq2
+    · exfalso
+      split at h
+      · cases h
+      · split at h
+        · cases h
+        · split at h
+          · split at h <;> cases h
+          · cases h
+
+/-- A story whose first instruction is an external divert without target path and without
+    variable target (no loader builds one: the invariant behind `divert.rs:get_target_path_string`). -/
+def exBadDivertRoot : Obj := .container none 0
+  [.divert { pushes := false, pushType := .function, external := true, exArgs := 0,
+             conditional := false, varName := none, target := none }] []
+def exBadDivert : Story := { exStory with root := exBadDivertRoot }
+
+/-- A story whose first instruction is `du`, with nothing on the evaluation stack. -/
+def exDu : Story := { exStory with root := .container none 0 [.cmd .duplicate] [] }
+
+-- the listed sites are reachable from states that break the invariant they stand for …
+example : ∃ st1, exBadDivert.runM (step exBadDivert.env)
+    = (.panic "divert.rs:get_target_path_string", st1) := ⟨_, rfl⟩
+example : ∃ st1, exBadDivert.continueSingleStep = (.panic "divert.rs:get_target_path_string", st1) := ⟨_, rfl⟩
+-- … and a hardened site is a story error
+example : ∃ st1, exDu.runM (step exDu.env)
+    = (.err "InvalidStoryState" "Evaluation stack is empty: nothing to duplicate.", st1) := ⟨_, rfl⟩
+-- the sites that the hardening turned into story errors are not in the list
+example : stepSites.length = 8 := rfl
+example : "callstack.rs:get_temporary_variable_with_name" ∉ stepSites := by decide
+example : "control_logic.rs:duplicate_peek" ∉ stepSites := by decide
+example : "native_function_call.rs:binary_list_downcast" ∉ continueSites := by decide
 
 end C04
 end Ink
